@@ -9,7 +9,10 @@ Phases (VERIF_PHASES=enum,clock,etcd,reconf,go,mbt,tv):
   reconf TLC model-checks the hot-update part (Reconfigure: a new generation is built from a new spec with Inherit: JWT secret
          rotated / algorithm changed, access keys removed / re-keyed, Basic users changed, methods dropped and added) and
          generates such behaviours (accepted -> hot update -> the same request again)
-  go     the harness concretises every vector >= 3 times on the real Validator through the server path
+  go     the harness concretises every vector >= 3 times on the real Validator through the server path (Basic credentials: three
+         users - plain password, password with ':', password beginning / ending with white space and name ending with white space -
+         and, among the presented classes, credentials that differ from configured ones only by leading / trailing ASCII or Unicode
+         white space, in both directions: padded / userPadded / trimmed)
   mbt    observed result vs. the prediction carried by the vector
   tv     the logged cases (plus randomly composed ones that carry no prediction) validated as a trace by TLC
 """
@@ -64,7 +67,8 @@ NOMUT = {p: False for p in PARTS}
 NOTOK = {"p": False, "key": "-", "alg": "-", "halg": "-", "nbf": -1, "exp": -1, "iat": "absent", "mut": "none"}
 NOSG = {"p": False, "carrier": "-", "key": "-", "age": "-", "pexp": "-", "cexcl": False, "body": False, "mut": NOMUT}
 NOBS = {"p": False, "user": "-", "ver": "v1", "pw": "-", "b64": True}
-USERS0 = {"uPlain": "v1", "uColon": "v1"}
+KNOWN_USERS = ("uPlain", "uColon", "uBlank")     # uBlank: password begins / ends with white space
+USERS0 = {u: "v1" for u in KNOWN_USERS}
 MAT0 = {"jsec": "k0", "aks": {"id0": "v1", "id1": "v1"}}
 SGCRED = {"id0": ("id0", "v1"), "id1": ("id1", "v1"), "id0v2": ("id0", "v2"), "id1v2": ("id1", "v2")}
 SGKEYS_BAD = ["id0wrongsecret", "unknown", "noid", "noidsecret", "id0nosecret", "id0v2", "id1v2"]
@@ -99,9 +103,11 @@ def random_behaviours(rng, nb, per):
 
     def bs():
         if rng.random() < 0.5:
-            return {"p": True, "user": rng.choice(["uPlain", "uColon"]), "ver": "v1", "pw": "right", "b64": True}
-        u = rng.choice(["uPlain", "uColon", "unknown"])
-        pw = "wrong" if u == "unknown" else rng.choice(["right", "wrong", "rightColonX", "empty", "nocolon"] + (["prefix"] if u == "uColon" else []))
+            return {"p": True, "user": rng.choice(KNOWN_USERS), "ver": "v1", "pw": "right", "b64": True}
+        u = rng.choice(KNOWN_USERS + ("unknown",))
+        pw = rng.choice(["wrong", "userPadded"]) if u == "unknown" else \
+            rng.choice(["right", "wrong", "rightColonX", "empty", "nocolon", "padded", "padded", "userPadded"] +
+                       (["prefix"] if u == "uColon" else []) + (["trimmed", "trimmed"] if u == "uBlank" else []))
         return {"p": True, "user": u, "ver": "v1" if u == "unknown" else rng.choice(["v1", "v1", "v2"]), "pw": pw, "b64": rng.random() < 0.8}
 
     behs = []
@@ -141,7 +147,7 @@ def random_behaviours(rng, nb, per):
             if r["auth"] != "sig" and not r["sg"]["p"] and c["sig"]["on"] and rng.random() < 0.5:
                 r["sg"] = sg(c, "query")
             if c["basic"] == "etcd" and rng.random() < 0.25:
-                beh.append({"a": "sync", "users": {u: rng.choice(["v1", "v1", "v2", "gone"]) for u in ("uPlain", "uColon")}})
+                beh.append({"a": "sync", "users": {u: rng.choice(["v1", "v1", "v2", "gone"]) for u in KNOWN_USERS}})
             if rng.random() < 0.12 and c["basic"] != "nomode":
                 # hot update: same methods, new material (the request generator above keeps using the first generation's
                 # classes, so about half of the credentials stop / start being valid)
@@ -152,7 +158,7 @@ def random_behaviours(rng, nb, per):
                 if all(v == "gone" for v in aks.values()):
                     aks["id1"] = "v2"
                 beh.append({"a": "reconf", "cfg": c, "mat": {"jsec": rng.choice(["k0", "k0", "k1"]), "aks": aks},
-                            "users": {u: rng.choice(["v1", "v1", "v2", "gone"]) for u in ("uPlain", "uColon")}})
+                            "users": {u: rng.choice(["v1", "v1", "v2", "gone"]) for u in KNOWN_USERS}})
                 if last is not None and rng.random() < 0.7:
                     beh.append({"a": "present", "req": last})     # an earlier request again, after the hot update
             beh.append({"a": "present", "req": r})
@@ -339,6 +345,16 @@ def _vacuity(ctx, cases):
     nk = sum(1 for c in pred if c["req"]["sg"]["p"] and c["req"]["sg"]["key"] in ("noid", "noidsecret", "id0nosecret") and c["cfg"]["sig"]["on"])
     if ctx.phase("enum") and nk < 20:
         return "only %d signatures with an empty access key id / empty secret executed" % nk
+    # credentials that differ from configured ones by leading / trailing white space only (must be rejected), and the
+    # credentials of the user whose configured password / name really has white space at its ends (must be accepted)
+    ws_rej = sum(1 for c in pred if c["req"]["auth"] == "basic" and c["req"]["bs"]["pw"] in ("padded", "userPadded", "trimmed")
+                 and c["req"]["bs"]["b64"] and c["cfg"]["basic"] in ("file", "etcd") and c["v"]["basic"] == "bad")
+    ws_acc = sum(1 for c in pred if c["req"]["auth"] == "basic" and c["req"]["bs"]["user"] == "uBlank" and c["v"]["basic"] == "ok"
+                 and c["exp"] == "accept")
+    ctx.log("coverage (predicted), white space: %d credentials differing by white space at the ends only, %d accepted credentials "
+            "with white space at their ends" % (ws_rej, ws_acc))
+    if ctx.phase("enum") and (ws_rej < 30 or ws_acc < 6):
+        return "white space in Basic credentials: %d must-reject / %d must-accept cases executed" % (ws_rej, ws_acc)
     if nm < 100 or (ctx.phase("clock") and flips < 5) or (ctx.phase("etcd") and (revoked < 5 or readmit < 3 or empty < 1)):
         return "%d post-signing mutations, %d accepted-then-expired tokens, %d accepted-then-revoked credentials (%d by an empty table), " \
                "%d admitted after a snapshot" % (nm, flips, revoked, empty, readmit)
@@ -446,7 +462,8 @@ def run(ctx):
     for c in cases:
         ctx.nontrivial({"c": c["cfg"], "r": c["req"], "n": c["now"], "u": c["users"], "m": c["mat"], "g": min(c["gen"], 1)})
     picks = [next((c for c in cases if c["res"]["acc"] and c["req"]["sg"]["p"]), None), next((c for c in cases if c["mutations"]), None),
-             next((c for c in cases if c["req"]["auth"] == "basic" and c["req"]["bs"]["pw"] == "rightColonX"), None)]
+             next((c for c in cases if c["req"]["auth"] == "basic" and c["req"]["bs"]["pw"] == "rightColonX"), None),
+             next((c for c in cases if c["req"]["auth"] == "basic" and c["req"]["bs"]["pw"] == "padded" and c["req"]["bs"]["b64"]), None)]
     for c in picks:
         if c:
             ctx.sample({"kind": "case", "cfg": c["cfg"], "req": c["req"], "predicted": c.get("exp"), "observed": c["res"],
